@@ -435,6 +435,46 @@ def _loops_to_comprehensions(fn):
             return v.func.id
         return None
 
+    def chain_to(target):
+        """[(statement list, index)] from the function body down to `target`, or None; loops on the way make it None"""
+        def find(body):
+            for i, st in enumerate(body):
+                if st is target:
+                    return [(body, i)]
+                if isinstance(st, (ast.FunctionDef, ast.AsyncFunctionDef, ast.ClassDef)):
+                    continue
+                for fld in ('body', 'orelse', 'finalbody'):
+                    sub = getattr(st, fld, None)
+                    if isinstance(sub, list) and sub and isinstance(sub[0], ast.stmt):
+                        r = find(sub)
+                        if r is not None:
+                            return None if isinstance(st, (ast.For, ast.AsyncFor, ast.While)) and r else [(body, i)] + r
+                for h in getattr(st, 'handlers', []):
+                    r = find(h.body)
+                    if r is not None:
+                        return [(body, i)] + r
+            return None
+        return find(fn.body)
+
+    def only_returned(st, name):
+        held = [x for x in ast.walk(st) if isinstance(x, ast.Name) and x.id == name]
+        rets = [r.value for r in ast.walk(st) if isinstance(r, ast.Return) and isinstance(r.value, ast.Name) and r.value.id == name]
+        return all(any(h is r for r in rets) for h in held)
+
+    def distant_init(lp, name):
+        ch = chain_to(lp)
+        if not ch:
+            return None
+        for lst, i in reversed(ch):
+            for st in reversed(lst[:i]):
+                if not mentions(st, name):
+                    continue
+                if isinstance(st, ast.Assign) and len(st.targets) == 1 and isinstance(st.targets[0], ast.Name) and st.targets[0].id == name:
+                    return st
+                if not only_returned(st, name):
+                    return None
+        return None
+
     def convert(body, k):
         lp = body[k]
         if lp.orelse or not lp.body:
@@ -464,9 +504,16 @@ def _loops_to_comprehensions(fn):
         j = k - 1
         while j >= 0 and not mentions(body[j], acc):
             j -= 1
+        distant = False
         if j < 0:
-            return False
-        init = body[j]
+            # the initialisation further out:  xs = [] ; <guards that at most `return xs`> ; if ...: for ...: xs.append(V)
+            # - the loop is not itself inside a loop, and between the two xs is only ever returned
+            init = distant_init(lp, acc)
+            if init is None or stores.get(acc, 0) != 1:
+                return False
+            distant = True
+        else:
+            init = body[j]
         if not (isinstance(init, ast.Assign) and len(init.targets) == 1 and isinstance(init.targets[0], ast.Name)
                 and init.targets[0].id == acc and empty_kind(init.value) == kind):
             return False
@@ -536,7 +583,8 @@ def _loops_to_comprehensions(fn):
                 ast.copy_location(x, lp)
         ast.copy_location(new, lp)
         body[k] = new
-        del body[j]
+        if not distant:
+            del body[j]
         return True
 
     changed = False
@@ -698,9 +746,52 @@ def _guard_form(tree):
     return tree
 
 
+def _chain(fn, target):
+    """[(owner statement or fn, statement list, index)] from the function body down to `target`"""
+    def find(owner, body):
+        for i, st in enumerate(body):
+            if st is target:
+                return [(owner, body, i)]
+            if isinstance(st, (ast.FunctionDef, ast.AsyncFunctionDef, ast.ClassDef)):
+                continue
+            for fld in ('body', 'orelse', 'finalbody'):
+                sub = getattr(st, fld, None)
+                if isinstance(sub, list) and sub and isinstance(sub[0], ast.stmt):
+                    r = find(st, sub)
+                    if r is not None:
+                        return [(owner, body, i)] + r
+            for h in getattr(st, 'handlers', []) or []:
+                r = find(st, h.body)
+                if r is not None:
+                    return [(owner, body, i)] + r
+        return None
+    return find(fn, fn.body) or []
+
+
+def _in_loop(fn, st):
+    return any(isinstance(o, (ast.For, ast.AsyncFor, ast.While)) for o, _b, _i in _chain(fn, st))
+
+
+def _stmt_list_of(fn, st):
+    ch = _chain(fn, st)
+    return ch[-1][1] if ch else None
+
+
+def _dominating_list(fn, first, later):
+    """`first` sits directly in a statement list that (transitively) contains `later` after it, outside try bodies whose
+    handlers could run without it"""
+    lst = _stmt_list_of(fn, first)
+    for o, b, i in _chain(fn, later):
+        if b is lst:
+            return any(s is first for s in b[:i])
+    return False
+
+
 def _copy_prop(fn):
     """N13: x = y with x and y plain locals each bound exactly once: every read of x is a read of y.  (What inlining a
     helper leaves behind for its result, and what `result = value; ...; return result` spells.)"""
+    params_ = {a.arg for a in fn.args.args + fn.args.kwonlyargs + fn.args.posonlyargs} | \
+        {a.arg for a in (fn.args.vararg, fn.args.kwarg) if a is not None}
     for _round in range(6):
         loads, stores, declared = _name_counts(fn)
         done = False
@@ -732,6 +823,34 @@ def _copy_prop(fn):
                                 body.remove(st)
                                 done = True
                                 break
+                    if x != y and x not in declared and y not in declared and y != 'self' and y not in params_ \
+                            and stores.get(y, 0) == 1 and loads.get(y, 0) == 1 and not _in_loop(fn, st):
+                        # y exists only to be copied into x:  y = E ; ... (x not mentioned) ... ; x = y   ->   x = E ; ...
+                        ydef = [s2 for s2 in _own_walk(fn) if isinstance(s2, ast.Assign) and len(s2.targets) == 1
+                                and isinstance(s2.targets[0], ast.Name) and s2.targets[0].id == y]
+                        if len(ydef) == 1 and ydef[0].lineno < st.lineno and not _in_loop(fn, ydef[0]) and _dominating_list(fn, ydef[0], st) \
+                                and not any(isinstance(n_, ast.Name) and n_.id == x and ydef[0].lineno <= getattr(n_, 'lineno', 0) < st.lineno
+                                            for n_ in _own_walk(fn)) \
+                                and not any(isinstance(n_, ast.Name) and n_.id == x for n_ in ast.walk(ydef[0])):
+                            ydef[0].targets[0].id = x
+                            body.remove(st)
+                            if not body:
+                                body.append(ast.copy_location(ast.Pass(), st))
+                            done = True
+                            break
+                    if x != y and x not in declared and y not in declared and y != 'self' and stores.get(x, 0) == 1 and stores.get(y, 0) > 1 \
+                            and not _in_loop(fn, st) and _stmt_list_of(fn, st) is fn.body:
+                        # x = y after the last write of y, x bound only here: every later read of x is a read of y
+                        ystores = [n_ for n_ in _own_walk(fn) if isinstance(n_, ast.Name) and n_.id == y and isinstance(n_.ctx, (ast.Store, ast.Del))]
+                        xloads = [n_ for n_ in _own_walk(fn) if isinstance(n_, ast.Name) and n_.id == x and isinstance(n_.ctx, ast.Load)]
+                        nested = [n_ for d_ in _own_walk(fn) if isinstance(d_, (ast.FunctionDef, ast.AsyncFunctionDef, ast.Lambda)) and d_ is not fn
+                                  for n_ in ast.walk(d_) if isinstance(n_, ast.Name) and n_.id in (x, y)]
+                        if all(n_.lineno < st.lineno for n_ in ystores) and all(n_.lineno > st.lineno for n_ in xloads) and not nested:
+                            for n_ in xloads:
+                                n_.id = y
+                            body.remove(st)
+                            done = True
+                            break
                     if x == y or x in declared or y in declared or stores.get(x, 0) != 1 or stores.get(y, 0) != 1 or y == 'self':
                         continue
                     if '__' not in x and '__' not in y:
@@ -1043,6 +1162,15 @@ def _enumerate_with_start(fn):
                 for x in ast.walk(new):
                     if isinstance(x, (ast.stmt, ast.expr)):
                         x.lineno = lp.lineno - 0.00005
+                # the increment sits where it runs: after the last statement of the body, or before the first
+                at_end = lp.body[-1] is inc
+                others = [s_ for s_ in lp.body if s_ is not inc]
+                if others:
+                    where = max(getattr(x, 'end_lineno', None) or getattr(x, 'lineno', 0) for s_ in others[-1:] for x in ast.walk(s_)
+                                if hasattr(x, 'lineno')) + 0.00005 if at_end else others[0].lineno - 0.00005
+                    for x in ast.walk(inc):
+                        if isinstance(x, (ast.stmt, ast.expr)):
+                            x.lineno = x.end_lineno = where
                 # a hand-written initialisation of the same counter right before the loop is the one the loop replaces
                 if k >= 2 and isinstance(body[k - 2], ast.Assign) and len(body[k - 2].targets) == 1 and isinstance(body[k - 2].targets[0], ast.Name) \
                         and body[k - 2].targets[0].id == i:
@@ -1099,6 +1227,163 @@ def _flag_loops(fn):
                 k -= 1
 
 
+def _not_dm(e):
+    """negation pushed through and/or (de Morgan), leaves negated by _not"""
+    if isinstance(e, ast.BoolOp):
+        op = ast.And() if isinstance(e.op, ast.Or) else ast.Or()
+        return ast.copy_location(ast.BoolOp(op=op, values=[_not_dm(v) for v in e.values]), e)
+    return _not(e)
+
+
+def _iteration_count(fn):
+    """N24: a list that gains exactly one element per iteration counts the iterations, as the counter next to it does
+
+        c = S                                   c = S
+        for T in IT:                            for T in IT:
+            ... X.append(e) ...     ->              ... X.append(e) ...
+            c += 1                                  c += 1
+        ... S + len(X) ...                      ... c ...
+
+    X is a local bound once to `[]`, grown by exactly one unconditional append at the top level of the loop body (directly or
+    through a once-bound alias `a = X.append`) and by nothing else; the loop has no break / continue of its own; c is written
+    only by `c = S` right before the loop and `c += 1` as the last statement of its body; S is a name bound once.  The
+    expression must come after the loop, outside it, and be reachable only through it (its enclosing blocks are `with`)."""
+    loads, stores, declared = _name_counts(fn)
+
+    def own_jump(stmts):
+        for s_ in stmts:
+            if isinstance(s_, (ast.Continue, ast.Break)):
+                return True
+            if isinstance(s_, (ast.For, ast.AsyncFor, ast.While, ast.FunctionDef, ast.AsyncFunctionDef, ast.ClassDef)):
+                continue
+            for fld_ in ('body', 'orelse', 'finalbody'):
+                sub_ = getattr(s_, fld_, None)
+                if isinstance(sub_, list) and sub_ and isinstance(sub_[0], ast.stmt) and own_jump(sub_):
+                    return True
+            for h_ in getattr(s_, 'handlers', []) or []:
+                if own_jump(h_.body):
+                    return True
+        return False
+
+    def find(body, trail):
+        for i, st in enumerate(body):
+            if isinstance(st, ast.For) and i > 0 and not st.orelse and st.body:
+                yield body, i, trail
+            if isinstance(st, (ast.With, ast.AsyncWith)):
+                yield from find(st.body, trail + [(body, i)])
+
+    for body, i, trail in list(find(fn.body, [])):
+        lp, init = body[i], body[i - 1]
+        last = lp.body[-1]
+        if not (isinstance(init, ast.Assign) and len(init.targets) == 1 and isinstance(init.targets[0], ast.Name) and isinstance(init.value, ast.Name)
+                and isinstance(last, ast.AugAssign) and isinstance(last.op, ast.Add) and isinstance(last.target, ast.Name)
+                and isinstance(last.value, ast.Constant) and last.value.value == 1 and last.target.id == init.targets[0].id):
+            continue
+        c, S = init.targets[0].id, init.value.id
+        if c in declared or S in declared or stores.get(c, 0) != 2 or stores.get(S, 0) != 1 or own_jump(lp.body):
+            continue
+        # lists grown once per iteration
+        aliases = {}
+        for st in _own_walk(fn):
+            if isinstance(st, ast.Assign) and len(st.targets) == 1 and isinstance(st.targets[0], ast.Name) and isinstance(st.value, ast.Attribute) \
+                    and st.value.attr == 'append' and isinstance(st.value.value, ast.Name) and stores.get(st.targets[0].id, 0) == 1:
+                aliases[st.targets[0].id] = st.value.value.id
+        grown = {}
+        for st in lp.body:
+            if isinstance(st, ast.Expr) and isinstance(st.value, ast.Call) and len(st.value.args) == 1 and not st.value.keywords:
+                f_ = st.value.func
+                X = f_.value.id if isinstance(f_, ast.Attribute) and f_.attr == 'append' and isinstance(f_.value, ast.Name) else \
+                    aliases.get(f_.id) if isinstance(f_, ast.Name) else None
+                if X:
+                    grown[X] = grown.get(X, 0) + 1
+        after = []
+        for lst, j in trail + [(body, i)]:
+            after += lst[j + 1:]
+        for X, cnt in grown.items():
+            if cnt != 1 or X in declared or stores.get(X, 0) != 1:
+                continue
+            binds = [st for st in _own_walk(fn) if isinstance(st, ast.Assign) and len(st.targets) == 1 and isinstance(st.targets[0], ast.Name)
+                     and st.targets[0].id == X]
+            if len(binds) != 1 or not (isinstance(binds[0].value, ast.List) and not binds[0].value.elts) or binds[0].lineno >= lp.lineno:
+                continue
+            # every other mention of X before the end of the loop is the alias binding or that one append
+            ok = True
+            for n_ in _own_walk(fn):
+                if isinstance(n_, ast.Name) and n_.id == X and isinstance(n_.ctx, ast.Load) and getattr(n_, 'lineno', 0) <= getattr(lp, 'end_lineno', lp.lineno):
+                    par_ok = any(isinstance(st, ast.Assign) and isinstance(st.value, ast.Attribute) and st.value.value is n_ and st.value.attr == 'append'
+                                 for st in _own_walk(fn)) or \
+                        any(isinstance(st, ast.Expr) and isinstance(st.value, ast.Call) and isinstance(st.value.func, ast.Attribute)
+                            and st.value.func.value is n_ and st.value.func.attr == 'append' for st in lp.body)
+                    ok = ok and par_ok
+            if not ok:
+                continue
+            for st in after:
+                for e in list(ast.walk(st)):
+                    if isinstance(e, ast.BinOp) and isinstance(e.op, ast.Add):
+                        for a_, b_ in ((e.left, e.right), (e.right, e.left)):
+                            if isinstance(a_, ast.Name) and a_.id == S and isinstance(b_, ast.Call) and isinstance(b_.func, ast.Name) and b_.func.id == 'len' \
+                                    and len(b_.args) == 1 and isinstance(b_.args[0], ast.Name) and b_.args[0].id == X:
+                                _ReplaceNode(e, ast.copy_location(ast.Name(id=c, ctx=ast.Load()), e)).visit(st)
+                                break
+
+
+def _beta_reduce(fn):
+    """N23: a local bound once to a lambda and only ever called is applied where it is called
+
+        key = lambda p: p.bucket()          ... p0.bucket() ...
+        ... key(p0) ...             ->
+
+    (plain positional parameters; every argument a name / constant / attribute chain, or its parameter read exactly once; the
+    lambda body reads only its parameters and names this function never re-binds)."""
+    loads, stores, declared = _name_counts(fn)
+    bound = _bound_in(fn)
+    for parent in [fn] + list(_own_walk(fn)):
+        for fld in ('body', 'orelse', 'finalbody'):
+            body = getattr(parent, fld, None)
+            if not (isinstance(body, list) and body and isinstance(body[0], ast.stmt)):
+                continue
+            for st in list(body):
+                if not (isinstance(st, ast.Assign) and len(st.targets) == 1 and isinstance(st.targets[0], ast.Name) and isinstance(st.value, ast.Lambda)):
+                    continue
+                name, lam = st.targets[0].id, st.value
+                a = lam.args
+                if a.vararg or a.kwarg or a.kwonlyargs or a.defaults or a.posonlyargs or name in declared or stores.get(name, 0) != 1:
+                    continue
+                params = [x.arg for x in a.args]
+                free = {n.id for n in ast.walk(lam.body) if isinstance(n, ast.Name)} - set(params)
+                if any(x in bound for x in free) or any(isinstance(n, (ast.Lambda, ast.Await, ast.Yield, ast.YieldFrom, ast.NamedExpr)) for n in ast.walk(lam.body)):
+                    continue
+                calls = [c for c in ast.walk(fn) if isinstance(c, ast.Call) and isinstance(c.func, ast.Name) and c.func.id == name]
+                if len(calls) != loads.get(name, 0) or not calls:
+                    continue
+                if any(c.keywords or len(c.args) != len(params) or any(isinstance(x, ast.Starred) for x in c.args) for c in calls):
+                    continue
+                reads = {p_: sum(1 for n in ast.walk(lam.body) if isinstance(n, ast.Name) and n.id == p_) for p_ in params}
+                if any(not _simple_arg(x) and reads[p_] != 1 for c in calls for p_, x in zip(params, c.args)):
+                    continue
+                for c in calls:
+                    new = _SubstMany({}, dict(zip(params, c.args))).visit(fast_copy(lam.body))
+                    _ReplaceNode(c, ast.copy_location(new, c)).visit(fn)
+                body.remove(st)
+                if not body:
+                    body.append(ast.copy_location(ast.Pass(), st))
+
+
+def _head_break_loops(fn):
+    """N22: an endless loop whose first act is to test for its exit is a loop on the negated test
+
+        while True:                          while not C:
+            if C: break             ->           BODY
+            BODY
+    """
+    for w in _own_walk(fn):
+        if isinstance(w, ast.While) and not w.orelse and isinstance(w.test, ast.Constant) and w.test.value is True and w.body:
+            h = w.body[0]
+            if isinstance(h, ast.If) and not h.orelse and len(h.body) == 1 and isinstance(h.body[0], ast.Break):
+                w.test = _not_dm(h.test)
+                w.body = w.body[1:] or [ast.copy_location(ast.Pass(), h)]
+
+
 def normalize(tree, relpath=None):
     _unannotate(tree)
     _list_spellings(tree)
@@ -1145,12 +1430,15 @@ def normalize(tree, relpath=None):
             _inline_aliases(n, rb)
     for n in ast.walk(tree):
         if isinstance(n, (ast.FunctionDef, ast.AsyncFunctionDef)):
+            _beta_reduce(n)
             _enumerate_with_start(n)
+            _iteration_count(n)
             _flag_loops(n)
             _reverse_then_iterate(n)
             _copy_prop(n)
             if not os.environ.get('VERIF_NO_N14'):
                 _propagate_pure(n)
+            _head_break_loops(n)
     for n in ast.walk(tree):
         if isinstance(n, (ast.FunctionDef, ast.AsyncFunctionDef)) and not os.environ.get('VERIF_NO_N11'):
             _loops_to_comprehensions(n)
